@@ -88,6 +88,12 @@ class Session:
             self.errors.append(f"{label}: {type(e).__name__}: {e}\n" + "".join(traceback.format_exc().splitlines(True)[-7:]))
         return None
 
+    def table(self, oid, ok: bool, detail=""):
+        """A finite fact about module-level literals, computed from the AST values (obligation kind `table`)."""
+        o = Obligation(f"{self.prop}/table/{oid}", "table", [z3.Not(z3.BoolVal(bool(ok)))], meta=dict(detail=detail))
+        self.obligations.append(o)
+        return o
+
     # ------------------------------------------------------------------ discharging
     def discharge_all(self):
         obls = self.obligations
@@ -100,12 +106,13 @@ class Session:
             for o in wit:
                 exp = bounded_expand(o.assertions, 2)
                 qs.append(to_smt2(exp + theory_axioms(exp)))
-            for o, r in zip(wit, discharge(qs, timeout_ms=min(self.timeout_ms, 10000), cross=False, cvc5=False)):
+            for o, r in zip(wit, discharge(qs, timeout_ms=min(self.timeout_ms, 5000), cross=False, cvc5=False)):
                 if r["result"] == "sat":
                     r["backend"] += "+bounded-expansion(B=2)"
                     pre[id(o)] = r
         rest = [o for o in obls if id(o) not in pre]
-        results = discharge([o.smt2() for o in rest], timeout_ms=self.timeout_ms, cross=(self.tier == "thorough"))
+        tms = [self.timeout_ms if o.expect == "unsat" else min(self.timeout_ms, 8000) for o in rest]
+        results = discharge([o.smt2() for o in rest], timeout_ms=tms, cross=(self.tier == "thorough"))
         for o, r in zip(rest, results):
             o.verdict = r
         for o in obls:
